@@ -1765,6 +1765,10 @@ func (c *Ctx) c6Case(s *c6Scene, glb bool, tag string) {
 		// the file's own JSON chunk, stripped of its padding, is handed over; the model frames it with ITS buffer
 		c.Emit("c06.glb", "h"+hex.EncodeToString(bytes.TrimRight(o.frame.json, " "))+" "+st, bytesTok(o.file))
 	}
+	if glb && len(o.file) <= 20000 {
+		// round 2: the Lean reader glbParse recovers text + blank padding and buffer + zero padding (glb_parse_write)
+		c.Emit("c06.holds.glbparse", "h"+hex.EncodeToString(o.file)+" h"+hex.EncodeToString(bytes.TrimRight(o.frame.json, " "))+" h"+hex.EncodeToString(o.bin), "true")
+	}
 	if glb {
 		c.Emit("c06.holds.frame", o.frame.tokens()+" "+strconv.Itoa(len(bytes.TrimRight(o.frame.json, " ")))+" "+strconv.Itoa(len(o.bin))+
 			" "+b2s(isPad(o.frame.json, ' '))+" "+b2s(isPadBin(o.frame.bin, len(o.bin))), "true")
